@@ -96,12 +96,18 @@ def split_allocation_shapes(S, k):
     rect, alloc, depth = mk_cell(S, "c", k)
     levels = S.int("levels", lo=0)
 
+    calls = []
+
     def rec(r, al, d, lv=0):
         S.ensure("split.measure_decreases", sand(lv >= 0, lv < levels))
+        calls.append(lv)
         return split_stub(S)(r, al, d, lv)
     if S.mode == "sym":
         S.patch(Allocation, "_split_allocation", staticmethod(rec))
     out = S.call(REAL_SPLIT, rect, alloc, depth, levels)
+    if S.mode == "sym" and out.ok and not calls and not isinstance(out.value, Summary) and len(out.value) > 1:
+        from vf import loopcut       # see C02 split_allocation_recursive: the code does not recurse through its own name any more
+        raise loopcut.CutError("_split_allocation no longer recurses through its own name: recursion-by-contract not applicable")
     S.ensure("split.no_raise", out.ok)
     if out.ok:
         res = out.value
